@@ -381,14 +381,19 @@ func runC19Relay(run *Run, seed int64, rng *rand.Rand) (out []*c01Result) {
 	}
 	pending := map[uint32]bool{}
 	usedSeq := map[uint32]int{}
+	var lastFresh uint32 // the sequence number of the last ping the relay forwarded (it hands them out in sequence)
+	haveFresh := false
 	for k := 0; k < 60; k++ {
 		r := uint32(5000 + k)
 		wantNack := rng.Intn(2) == 0
-		mode := []string{"ack-early", "ack-late", "no-ack", "ack-wrong-seq", "ack-from-other", "send-error"}[rng.Intn(6)]
+		mode := []string{"ack-early", "ack-late", "no-ack", "ack-wrong-seq", "ack-from-other", "send-error", "send-error-then-ack"}[rng.Intn(7)]
+		if mode == "send-error-then-ack" && !haveFresh {
+			mode = "send-error"
+		}
 		nT, nR := len(T.Received()), len(R.Received())
 		// send-error: the relay's own ping cannot be sent (the local stack refuses the datagram); the
 		// requester must still get its nack
-		sendErr.Store(mode == "send-error")
+		sendErr.Store(mode == "send-error" || mode == "send-error-then-ack")
 		R.Send(Enc(TIndirectPing, &WIndirectPing{SeqNo: r, Target: []byte(T.EP.IP), Port: 7946, Node: "T", Nack: wantNack, SourceAddr: []byte(R.EP.IP), SourcePort: 7946, SourceNode: "R"}))
 		Settle(2 * time.Millisecond)
 		// the forwarded ping
@@ -410,11 +415,22 @@ func runC19Relay(run *Run, seed int64, rng *rand.Rand) (out []*c01Result) {
 		}
 		run.Eval(1)
 		run.Cell("relay", mode, fmt.Sprintf("nack=%v", wantNack))
-		if mode == "send-error" {
+		if mode == "send-error" || mode == "send-error-then-ack" {
 			sendErr.Store(false)
 			if found != 0 {
 				fail("harness/send-error", "%d pings reached the target although the send was refused", found)
 				return
+			}
+			thenAck := mode == "send-error-then-ack"
+			if thenAck {
+				// an acknowledgement carrying the number of the ping that never left (the numbers are sequential):
+				// the relay's record for it is still pending, so it is relayed and the nack is called off - once
+				Settle(50 * time.Millisecond)
+				lastFresh++
+				T.Send(Enc(TAck, &WAck{SeqNo: lastFresh}))
+				T.Send(Enc(TAck, &WAck{SeqNo: lastFresh}))
+			} else if haveFresh {
+				lastFresh++ // (the refused ping consumed a number)
 			}
 			Settle(700 * time.Millisecond)
 			acks, nacks := 0, 0
@@ -436,6 +452,16 @@ func runC19Relay(run *Run, seed int64, rng *rand.Rand) (out []*c01Result) {
 			if wantNack {
 				wantNacks = 1
 			}
+			if thenAck {
+				if acks > 1 || nacks > wantNacks || (acks == 1 && nacks != 0) {
+					fail("relay-outcome/send-error-then-ack", "request r=%d nack=%v, the relay's ping could not be sent and two copies of an acknowledgement for its number arrived 50 ms later: requester got %d ack(s) and %d nack(s)", r, wantNack, acks, nacks)
+					return
+				}
+				if acks == 0 {
+					run.Count("relay_send_error_ack_guess_missed", 1)
+				}
+				continue
+			}
 			if acks != 0 || nacks != wantNacks {
 				fail("relay-outcome/send-error", "request r=%d nack=%v, the relay's ping could not be sent: requester got %d ack(s) and %d nack(s), expected 0 and %d", r, wantNack, acks, nacks, wantNacks)
 				return
@@ -451,6 +477,7 @@ func runC19Relay(run *Run, seed int64, rng *rand.Rand) (out []*c01Result) {
 			return
 		}
 		usedSeq[fresh]++
+		lastFresh, haveFresh = fresh, true
 		if fresh == r {
 			run.Count("relay_seq_equal_to_requesters", 1)
 		}
